@@ -30,6 +30,7 @@ ObsClass(s) ==
     [] s.o = "exit"    -> "ran"                  \* the call was exit/exit_group and it ran
     [] s.o = "blocked" -> "ran"
     [] s.o = "loadfail" -> "loadfail"            \* seccomp(2) refused the program
+    [] s.o = "status"   -> "status"              \* spinning probe: seccomp state read from /proc
     [] OTHER -> "weird"
 
 \* what the kernel can make of a filter return value when no tracer / listener is attached
@@ -51,18 +52,33 @@ ArchOf(m) == IF m = "i" THEN I386 ELSE Native
 (* that line says anything about its own number: the line is a breach as a whole.             *)
 ExecOK(l) == Class(Run(l.prog, Native, W(59))) = "ALLOW"
 
+(* The kernel's own statement about a spinning probe that was launched with Runner.Seccomp set:  *)
+(* v = Seccomp mode * 1000 + number of filters added to the launcher's own.  Exactly one filter *)
+(* in filter mode (2) must have been handed over, whatever the other launch options are.        *)
+HandedOver(s) == s.v = 2001
+Installed(l)  == \A j \in DOMAIN l.obs : l.obs[j].o = "status" => HandedOver(l.obs[j])
+
+PossibleUnder(S) == UNION { KOfClass(c) : c \in S }
+
 JudgeSample(l, s) ==
   LET P == Policy(l)
       a == ArchOf(s.m)
       w == Run(l.prog, a, s.nr)
       oc == ObsClass(s)
   IN IF oc = "loadfail" THEN (IF Loadable(l.prog) THEN "model" ELSE "viol")
+     ELSE IF oc = "status" THEN (IF HandedOver(s) THEN "ok" ELSE "notinstalled")
+     ELSE IF ~Installed(l) THEN
+          \* the kernel says the child does not run (exactly) the program I read: observations of
+          \* this line say nothing about my reading, they are judged against the policy only
+          (IF oc = "unsupported" THEN "skip"
+           ELSE IF oc = "weird" THEN "model"
+           ELSE IF oc \notin PossibleUnder(Accept(P, a, s.nr)) THEN "viol" ELSE "ok")
      ELSE IF ~ExecOK(l) THEN (IF W(59) \in P.allow \ P.trace THEN "execblocked" ELSE "model")
      ELSE IF oc = "unsupported" THEN "skip"
      ELSE IF oc = "weird" THEN "model"
      ELSE IF ~Loadable(l.prog) THEN "model"                 \* the kernel loaded what I call unloadable
      ELSE IF oc \notin KOfWord(w) THEN "model"
-     ELSE IF oc \notin UNION { KOfClass(c) : c \in Accept(P, a, s.nr) } THEN "viol"
+     ELSE IF oc \notin PossibleUnder(Accept(P, a, s.nr)) THEN "viol"
      ELSE "ok"
 
 \* every observation judged once: <<line, sample index, verdict>>
